@@ -28,19 +28,44 @@ func verifYield() {
 
 func VerifDefaultServices() []Service { return defaultServices }
 
-// VerifPruneRunOnce configures one of the seven prune/expire services and runs its real
-// runOnce once. ok=false if the service is not a prune service.
+// VerifPruneRunOnce runs the real runOnce of one of the seven prune/expire services once.
+// Like the production process, an instance is initialised ONCE per (service, settings,
+// database client) and then run again and again; a call with the same settings later in the
+// run reuses the instance built earlier (a new client, i.e. a simulated restart, starts new
+// ones). minAge == 0 is the action's own boundary value: the service layer would replace it by
+// its default, so for it the action is built directly from the service's builder.
+// ok=false if the service is not a prune service.
 func VerifPruneRunOnce(ctx context.Context, s Service, client *ent.Client, minAge time.Duration, maxDelete int) (n int, err error, ok bool) {
 	ps, isPS := s.(*pruneService)
 	if !isPS {
 		return 0, nil, false
 	}
-	ps.settings = PruneCommonSettings{}
-	ps.settings.MinAge = minAge
-	ps.settings.MaxDelete = maxDelete
-	if err := ps.Initialize(ctx, client); err != nil {
-		return 0, err, true
+	key := verifPruneKey{ps.name, minAge, maxDelete, client}
+	inst := verifPruneInstances[key]
+	if inst == nil {
+		if len(verifPruneInstances) > 4096 {
+			verifPruneInstances = map[verifPruneKey]*pruneService{}
+		}
+		inst = &pruneService{name: ps.name, actionbuilder: ps.actionbuilder}
+		inst.settings.MinAge = minAge
+		inst.settings.MaxDelete = maxDelete
+		if err := inst.Initialize(ctx, client); err != nil {
+			return 0, err, true
+		}
+		if minAge == 0 {
+			inst.action = inst.actionbuilder(actions.PruneCommonParams{MinAge: 0, MaxDelete: maxDelete})
+		}
+		verifPruneInstances[key] = inst
 	}
-	n, err = ps.runOnce(ctx)
+	n, err = inst.runOnce(ctx)
 	return n, err, true
 }
+
+type verifPruneKey struct {
+	name      string
+	minAge    time.Duration
+	maxDelete int
+	client    *ent.Client
+}
+
+var verifPruneInstances = map[verifPruneKey]*pruneService{}
